@@ -94,6 +94,12 @@ def run(ctx):
          and any(isinstance(n, ast.For) for n in own_nodes(m.node))),
         None,
     )
+    if init_f is not None and cols is None and comp.methods.get("__init__") is not None:
+        # the names may be built by the constructor itself, through a helper
+        # (possibly a function of another private module): written out
+        ci = ctx.norm.flat(comp.methods["__init__"], depth=3)
+        if any(isinstance(n, ast.Attribute) and n.attr == "column_names" for n in own_nodes(ci.node)) and any(isinstance(n, ast.For) for n in own_nodes(ci.node)):
+            cols = ci
     if init_f is None or cols is None:
         raise AnalysisError("CompositeFeatureObserver.initialize_features/_set_column_names vanished")
 
@@ -104,7 +110,25 @@ def run(ctx):
         import re as _re
 
         fs = sorted([n for n in own_nodes(fi.node) if isinstance(n, ast.For)], key=source_pos(fi.node))
-        out = [(ast.unparse(n.iter), ast.unparse(n.target)) for n in fs[:2]]
+        # a parameter that the function also stores as `self.<attr>` is spelled as that attribute
+        stored = {}
+        for n in own_nodes(fi.node):
+            if isinstance(n, ast.Assign) and len(n.targets) == 1 and isinstance(n.value, ast.Name) and n.value.id in fi.params \
+                    and isinstance(n.targets[0], ast.Attribute) and isinstance(n.targets[0].value, ast.Name) and n.targets[0].value.id == "self":
+                stored[n.value.id] = ast.unparse(n.targets[0])
+
+        def it_text(e):
+            return stored.get(e.id, e.id) if isinstance(e, ast.Name) else ast.unparse(e)
+
+        if fi.name == "__init__":
+            # of a constructor only the loops that build the names matter
+            def names_inside(lp):
+                return any(
+                    (isinstance(x, ast.Attribute) and x.attr == "column_names") or (isinstance(x, ast.Name) and x.id.startswith("column_names"))
+                    for x in ast.walk(lp)
+                )
+            fs = [n for n in fs if names_inside(n)]
+        out = [(it_text(n.iter), ast.unparse(n.target)) for n in fs[:2]]
         if len(out) == 2 and isinstance(fs[0].target, ast.Name):
             v = fs[0].target.id
             pat = r"(?<![A-Za-z0-9_])" + _re.escape(v) + r"(?![A-Za-z0-9_])"
